@@ -214,8 +214,9 @@ UserStart(x0) ==
 EnvResolve(x0, res) ==      \* res: "ok" | error class
   [Begin(x0) EXCEPT !.st.wake = res]
 \* the OS connected: the socket exists from now on and must be closed by whoever holds it
+\* res = "okbad": connected, but the peer resets at once - configuring the socket will fail
 EnvTcp(x0, res) ==
-  [Begin(x0) EXCEPT !.st.wake = res, !.sock = IF res = "ok" THEN "open" ELSE @]
+  [Begin(x0) EXCEPT !.st.wake = res, !.sock = IF res \in {"ok", "okbad"} THEN "open" ELSE @]
 
 \* the start task resumes
 StartStep(x0) ==
@@ -232,6 +233,7 @@ StartStep(x0) ==
      ELSE IF x.st.wake = "ok"
           THEN Done([DelTimer(x, "tcp") EXCEPT !.sockset = TRUE, !.cs = "opened",
                           !.st = [pc |-> "done", wake |-> "none", out |-> "ok"]], "start", "ok")
+          ELSE IF x.st.wake = "okbad" THEN FailStart([x EXCEPT !.sockset = TRUE], "SocketAPIError")   \* an OS error while the socket is set up
           ELSE FailStart(x, x.st.wake)
 StartStepEnabled(x) ==
   /\ x.st.pc \in {"resolve", "tcp"}
